@@ -229,13 +229,18 @@ class _BitWriter:
         return bytes(self.out)
 
 
-def _width(table_len: int) -> int:
-    """Code length a decoder uses when its table holds ``table_len`` entries (early change)."""
-    return 9 if table_len < 511 else 10 if table_len < 1023 else 11 if table_len < 2047 else 12
+def _width(table_len: int, early: int = 1) -> int:
+    """Code length a decoder uses when its table holds ``table_len`` entries.
+
+    ISO 32000-1 Table 8: EarlyChange 1 (default) increases the code length one code early (at 511, 1023, 2047
+    entries), EarlyChange 0 postpones it as long as possible (at 512, 1024, 2048 entries).
+    """
+    e = 1 if early else 0
+    return 9 if table_len < 512 - e else 10 if table_len < 1024 - e else 11 if table_len < 2048 - e else 12
 
 
-def lzw_encode(data: bytes, clears: str = "start") -> bytes:
-    """TIFF 6.0 section 13 / ISO 32000-1 7.4.4 encoder, MSB-first codes, EarlyChange 1.
+def lzw_encode(data: bytes, clears: str = "start", early: int = 1) -> bytes:
+    """TIFF 6.0 section 13 / ISO 32000-1 7.4.4 encoder, MSB-first codes, EarlyChange ``early``.
 
     ``k`` counts the data codes written since the last clear-table code; a decoder that has read k codes holds
     258 + max(0, k-1) entries, which fixes the length of the next code (data, clear or EOD).
@@ -252,7 +257,7 @@ def lzw_encode(data: bytes, clears: str = "start") -> bytes:
         k = 0
 
     def emit(code: int):
-        bw.write(code, _width(258 + max(0, k - 1)))
+        bw.write(code, _width(258 + max(0, k - 1), early))
 
     reset()
     emit(256)
@@ -280,27 +285,20 @@ def lzw_encode(data: bytes, clears: str = "start") -> bytes:
     return bw.finish()
 
 
-def lzw_decode_ref(enc: bytes) -> bytes:
-    """Spec-literal decoder (TIFF 6.0 section 13 pseudo-code, early change)."""
-    pos = 0
+def lzw_decode_ref(enc: bytes, early: int = 1) -> bytes:
+    """Spec-literal decoder (TIFF 6.0 section 13 pseudo-code; code-length change per EarlyChange)."""
     total = len(enc) * 8
-
-    def read(nb):
-        nonlocal pos
-        if pos + nb > total:
-            raise EOFError
-        v = 0
-        for _ in range(nb):
-            v = (v << 1) | ((enc[pos >> 3] >> (7 - (pos & 7))) & 1)
-            pos += 1
-        return v
-
+    big = int.from_bytes(enc, "big") if enc else 0
+    pos = 0
     out = bytearray()
     table: List[bytes] = []
     nbits = 9
     old: Optional[bytes] = None
     while True:
-        code = read(nbits)
+        if pos + nbits > total:
+            raise EOFError
+        code = (big >> (total - pos - nbits)) & ((1 << nbits) - 1)
+        pos += nbits
         if code == 257:
             break
         if code == 256:
@@ -319,12 +317,7 @@ def lzw_decode_ref(enc: bytes) -> bytes:
             table.append(s)
         out += s
         old = s
-        if len(table) == 511:
-            nbits = 10
-        elif len(table) == 1023:
-            nbits = 11
-        elif len(table) == 2047:
-            nbits = 12
+        nbits = _width(len(table), early)
     return bytes(out)
 
 
@@ -447,7 +440,8 @@ def selfcheck(payloads: Iterable[bytes]) -> int:
             assert rl_decode_ref(e) == p, ("rl", s, p, e)
             n += 1
         for c in LZW_CLEARS:
-            e = lzw_encode(p, c)
-            assert lzw_decode_ref(e) == p, ("lzw", c, len(p))
-            n += 1
+            for early in (1, 0):
+                e = lzw_encode(p, c, early)
+                assert lzw_decode_ref(e, early) == p, ("lzw", c, early, len(p))
+                n += 1
     return n
